@@ -54,11 +54,11 @@ def known_http(prog, ex, line):
         # manifestation (b): the request is cancelled after the loop reported the fatal error
         rep = ex[-1].get("stderr", "")
         if ("heap-use-after-free" in rep and "in network_connect_cancel" in rep and "in http_request_cancel" in rep and "in tryconnect" in rep
-                and "\nfail " in prog and "\ncancel " in prog):
+                and "\nfail " in prog):
             return "F11 HTTP request cancelled after a fatal allocation failure inside network_connect's tryconnect touches the freed connection cookie"
         # F12: the request itself was freed by http.c's die() after a refused allocation in one of its callbacks
         if ("heap-use-after-free" in rep and re.search(r"#0 \S+ in http_request_cancel \S+http\.c:\d+\s*\n\s*#1 \S+ in run_child ", rep)
-                and re.search(r"in die \S+http\.c", rep) and "\nfail " in prog and "\ncancel " in prog):
+                and re.search(r"in die \S+http\.c", rep) and "\nfail " in prog):
             return "F12 HTTP request cancelled after http.c's die() freed it (fatal allocation failure in a callback, no callback to the owner)"
         return None
     if not (0 < line <= len(ex)) or ex[line - 1].get("e") != "exit" or ex[line - 1].get("live") != 2:
@@ -139,7 +139,12 @@ def main(c):
         st = c08.simple_response(rnd, 100 + i, n=nb, nh=2)
         st["framing"], st["interim"] = fr, ["long", "long"] if i == 1 else ["long"]
         base_http.append(c08.wellformed(st, rnd, 100 + i))
-    directed_http = set(base_http[-3:])
+    # the TLS entry point (https_request): started and cancelled at once, every allocation of the start-up refused in turn (the host
+    # name is owned by the caller of http_request2 when that fails, by the request when it succeeds)
+    for i in range(2):
+        p = c08.wellformed(c08.simple_response(rnd, 200 + i, n=5, nh=1), rnd, 200 + i)
+        base_http.append(p.replace("\nmaxrlen ", "\nhttps\nmaxrlen ", 1))
+    directed_http = set(base_http[-5:])
     # the allocation count of an HTTP request is in its end event; scenarios with several MB of body are left out
     base_http = [p for p in base_http if len(p) < 200000]
     exe_http = c08.build(c)
